@@ -199,10 +199,14 @@ def pad_stream(r, tier, kinds=None):
 ALL_BUILD = ("sr", "rr", "bye", "app", "sdes", "unknown", "fb", "custom", "compound", "chunk", "item", "fci", "pb")
 
 
-def build_stream(r, tier, kinds=ALL_BUILD, styles=("canon", "canon", "shuffle", "repeat", "owned")):
+def build_stream(r, tier, kinds=ALL_BUILD, styles=("canon", "canon", "shuffle", "repeat", "owned"), big=None):
+    """big: include the configurations around the 65536-word limit (slow: hundreds of kilobytes each);
+    default: only in the thorough tier"""
     ce = []
+    big = (tier == "thorough") if big is None else big
     for k in kinds:
         for cfg in streams.build_cfgs(k, r, tier):
+            if cfg.get("_big") and not big: continue
             style = r.choice(styles)
             ce.append((cfg, gen.render(cfg, r, style), {"style": style}))
     return fidelity.build_requests(ce, tier, r)
@@ -214,7 +218,7 @@ def group_stream(r, tier):
     ce = []
     n = 40 if tier == "quick" else 800
     for k in ("sr", "rr", "bye", "app", "sdes", "unknown", "fb", "custom", "pb", "compound", "chunk", "item", "fci"):
-        cfgs = streams.build_cfgs(k, r, "quick")
+        cfgs = [c for c in streams.build_cfgs(k, r, "quick") if not c.get("_big")]
         r.shuffle(cfgs)
         for cfg in cfgs[:n]:
             base = len(ce)
@@ -250,7 +254,7 @@ def streams_for(pid, r, tier):
     if pid == "C05":
         return build_stream(r, tier, ("fb",)) + of_kinds(build_stream(r, "quick", ("pb",)), ("tfb", "pfb"))
     if pid in ("C06", "C07", "C16", "C17"):
-        return build_stream(r, tier)
+        return build_stream(r, tier, big=(pid == "C16" or tier == "thorough"))
     if pid == "C08":
         return parse_typed(r, tier) + parse_custom(r, tier, 0.15) + pad_stream(r, "quick")
     if pid == "C09":
@@ -268,7 +272,17 @@ def streams_for(pid, r, tier):
     if pid == "C13":
         return pad_stream(r, tier)
     if pid == "C14":
-        return build_stream(r, tier, ("compound",))
+        out = []
+        for q, m in build_stream(r, tier, ("compound",)):
+            out.append((q, m))
+            if not gen.violations(m["cfg"]):
+                leaves = gen.flatten(m["cfg"])
+                if 0 < len(leaves) <= 12:
+                    m["leaf_reqs"] = []
+                    for lf in leaves:
+                        m["leaf_reqs"].append(len(out))
+                        out.append(streams.P("packet", gen.encode(lf), member_of=True))
+        return out
     if pid == "C15":
         return parse_fci(r, tier) + parse_typed(r, tier, ["tfb", "pfb"]) + pad_stream(r, "quick", ["tfb", "pfb"])
     if pid == "C18":
@@ -276,7 +290,6 @@ def streams_for(pid, r, tier):
     if pid == "C19":
         out = parse_custom(r, tier, 1.0) + build_stream(r, tier, ("custom", "unknown"))
         out += [(q, m) for q, m in build_stream(r, tier, ("compound",)) if "custom" in q or "unknown" in q]
-        out += pad_stream(r, "quick", [ck for ck in streams.custom_kinds() if ck[1] in (199, 242) and ck[2] in (4, 12)])
         return out
     if pid == "C20":
         return group_stream(r, tier)
@@ -343,6 +356,8 @@ def project(pid, t, meta):
         if op != "build":
             if pid == "C19" and op in ("parse", "pad"):
                 return dict(t)
+            if pid == "C14" and op == "parse":
+                return {k: v for k, v in t.items() if k in ("res", "variant", "version", "type", "count", "length", "padding")}
             return out
         if pid == "C14" and meta["cfg"]["k"] != "compound": return out
         n = size_n(t)
